@@ -163,6 +163,8 @@ def walk_ref(nodes, name, env, mv, mut):
         ev.append(('type', mv[name]))
     for nd in nodes:
         k = nd[0]
+        if k == 'orphan':
+            continue        # a filled sequence that is never attached is not reachable from the entry: no event may name it
         ev.append(('instr', {'const': 'Const', 'drop': 'Drop', 'lget': 'LocalGet', 'lset': 'LocalSet', 'br': 'Br', 'br_if': 'BrIf', 'block': 'Block', 'loop': 'Loop', 'if': 'IfElse',
                              'unreachable': 'Unreachable', 'return': 'Return'}[k]))
         if k in ('lget', 'lset'):
@@ -197,6 +199,8 @@ def walk_ref_preorder_mut(nodes, name, mv):
             out.append(('type', mv[nm]))
         for nd in nds:
             k = nd[0]
+            if k == 'orphan':
+                continue    # never attached: unreachable from the entry, reported by neither driver
             out.append(('instr', {'const': 'Const', 'drop': 'Drop', 'lget': 'LocalGet', 'lset': 'LocalSet', 'br': 'Br', 'br_if': 'BrIf', 'block': 'Block', 'loop': 'Loop', 'if': 'IfElse',
                                   'unreachable': 'Unreachable', 'return': 'Return'}[k]))
             if k in ('lget', 'lset'):
@@ -414,7 +418,7 @@ def run(tier, seed, only=None):
     if items:
         pc.run_parallel(ctx, report, run_dfs, items)
     report.queries = len(report.obligations)
-    report.bounds = {'generated trees': '%d drawn trees (obligations/c15.py gen_tree, VERIF_SEED) x {dfs_in_order, dfs_pre_order_mut}' % ngen, 'variants': 'all 51 Instr variants x {Visit, VisitMut}, operands distinct; list operands (br_table) with 2 entries', 'trees': '9 shapes incl. empty and non-empty multi-value sequences and sibling blocks',
+    report.bounds = {'generated trees': '%d drawn trees (obligations/c15.py gen_tree, VERIF_SEED) x {dfs_in_order, dfs_pre_order_mut}' % ngen, 'variants': 'all 51 Instr variants x {Visit, VisitMut}, operands distinct; list operands (br_table) with 2 entries', 'trees': '10 shapes incl. empty and non-empty multi-value sequences, sibling blocks and never-attached (orphan) sequences that no event may name',
                      'visitors': 'default hooks (trait defaults executed) with recording of the id/sequence hooks'}
     report.assumptions = ['a visitor that overrides a per-instruction hook replaces the default body (user code, outside the claim)', 'depth 10^5 is not executed: absence of recursion is a call-graph fact']
     report.samples = [o.as_json() for o in report.obligations[:4]]
